@@ -7,6 +7,7 @@
 # The AUTHORS file and the LICENSE file are at the
 # top level of this library.
 
+import codecs
 import inspect
 import io
 import urllib.request
@@ -122,7 +123,7 @@ def get_text_from(path, encoding=None) -> str:
         return s
 
 
-def decode_by_char(f: io.RawIOBase) -> str:
+def decode_by_char(f: io.RawIOBase, encoding: str = "utf-8") -> str:
     """Returns a ``str`` decoded from the characters in *f*.
 
     :param f: is expected to be a file object which has been
@@ -134,6 +135,9 @@ def decode_by_char(f: io.RawIOBase) -> str:
     or an element can no longer be decoded as UTF, the accumulated string will
     be returned.
     """
+    # Bytes are fed to an incremental decoder, so that a character
+    # which takes more than one byte does not look undecodable.
+    decoder = codecs.getincrementaldecoder(encoding)()
     s = ""
     try:
         for elem in iter(lambda: f.read(1), b""):
@@ -142,7 +146,7 @@ def decode_by_char(f: io.RawIOBase) -> str:
                     break
                 s += elem
             else:
-                s += elem.decode()
+                s += decoder.decode(elem)
 
     except UnicodeError:
         # Expecting this to mean that we got to the end of decodable
